@@ -1090,7 +1090,7 @@ def run_programs(R, J, rng, MB, built, objs1, objs2, members, trees, K, ks):
                      conservative_ok=cons_guard(Mn, Ln), sets=F is None)
         if ok and not is_pl(f):
             R.nontriv(('program_guard', Mn, e, str(F)))
-    R.cov['programs'] = {'small scope (complete)': nsmall, 'total distinct': len(progs), 'by root step and model outcome': dict(kinds),
+    R.cov['operator_programs'] = {'small scope (complete)': nsmall, 'total distinct': len(progs), 'by root step and model outcome': dict(kinds),
                          'handed to modelcheck': len(gcs)}
 
 
